@@ -181,3 +181,18 @@ def solver_constants(mods):
                 return False, 'digit count passed by PlayerTwo.value_iteration_rewards is not a literal'
     ok = tv == 1e-06 and fl == 6 and digits == [6]
     return ok, f'solve passes threshold={tv!r}; Solver.__init__ derives floor={fl!r}; PlayerTwo.value_iteration_rewards rounds to {digits} digits (the contracts require 1e-06 / 6 / [6])'
+
+
+def lean_meta(mods):
+    """the second-order meta-lemmas (least fixed point characterisation of reachability, inversion of forward reachability)
+    are checked by Lean 4 on every run: exit status 0, no `sorry`, axioms printed"""
+    import os, subprocess
+    path = os.path.join(os.path.dirname(os.path.dirname(os.path.abspath(__file__))), 'lean', 'Meta.lean')
+    try:
+        p = subprocess.run(['lean', path], capture_output=True, text=True, timeout=300)
+    except Exception as e:
+        return None, f'lean could not be run: {e}'
+    out = (p.stdout + p.stderr).strip()
+    if p.returncode != 0 or 'sorryAx' in out or 'error' in out:
+        return False, 'lean/Meta.lean does not check: ' + out[-300:]
+    return True, 'lean/Meta.lean checked by Lean 4 (no sorry): ' + '; '.join(l for l in out.splitlines() if 'axioms' in l)
